@@ -145,14 +145,27 @@ class Proc:
                 i = j + 1
             elif u.startswith("ERROR "):
                 raise B09Error(int(u.split()[1]))
-            elif u.startswith("ON ERROR") or re.match(r"^\d+\s+REM", u):
+            elif u.startswith("ON ERROR"):
+                m = re.match(r"^ON ERROR GOTO (\d+)$", u)
+                env["__on_error__"] = m.group(1) if m else None
+                i += 1
+            elif re.match(r"^\d+\s+REM", u):
                 i += 1
             else:
                 m = re.match(r"^(\w+\$?)\s*:?=\s*(.*)$", l)
                 if not m:
                     raise SyntaxError("statement not in the subset: %r" % l)
                 var = m.group(1).lower()
-                env[var] = self.coerce(var, self.eval(tokenize(m.group(2)), env))
+                try:
+                    env[var] = self.coerce(var, self.eval(tokenize(m.group(2)), env))
+                except B09Error:
+                    # ON ERROR GOTO <label>: control continues at the labelled line of this block (the form the library uses)
+                    lab = env.get("__on_error__")
+                    tgt = next((k for k, x in enumerate(lines) if lab and re.match(r"^%s\b" % lab, x)), None)
+                    if tgt is None:
+                        raise
+                    i = tgt
+                    continue
                 i += 1
 
     def coerce(self, var, val):
@@ -276,8 +289,9 @@ class Proc:
         if f in ("fix",):
             return int(a[0])
         if f == "int":
-            import math
-            return math.floor(a[0])
+            # BASIC09's INT drops the fraction (the library's own ecb_int is written around that: it subtracts 0.999999999 from
+            # negative arguments first); for the non-negative arguments of the other helpers this equals floor
+            return float(int(a[0]))
         if f == "val":
             try:
                 return float(a[0])
